@@ -529,6 +529,40 @@ def r_opt_rules(ctx):
         raise P.AnalysisError(f"R-PB-TABLE: {cname}: kinds seen {seen}")
 
 
+def r_flowtime_single_premise(ctx):
+    """R-SCHED-GUARD exempts the task times of ObjectiveMinimizeFlowtimeSingleResource because 'every use is guarded by
+    start >= lower_bound (>= 0) in the antecedent': that premise is decided here - every per-task implication of the constructor has
+    `task._start >= <lower bound>` among the conjuncts of its antecedent (an unscheduled task sits at a negative point and so never
+    fires it); otherwise the parked point of an unscheduled task pulls the minimum into the past"""
+    cname = "ObjectiveMinimizeFlowtimeSingleResource"
+    runs = runs_of(ctx, Entry("init", cls=cname, opaque=OPAQUE))
+    fails_closed(ctx, "R-SCHED-GUARD", runs)
+    where = f"{cname}.__init__"
+    n = 0
+    for run in runs:
+        if run.rejected:
+            continue
+        for e in run.emissions:
+            t = e.term
+            if not (e.loops and is_app(t, "Implies") and len(t) == 4):
+                continue
+            task = ("elem", e.loops[-1])
+            if not any(s_ in (A(task, "_start"), A(task, "_end")) for s_ in subterms(t[3])):
+                continue
+            n += 1
+            ants = list(t[2][2:]) if is_app(t[2], "And") else [t[2]]
+            ok = any(is_app(a, ">=") and len(a) == 4 and a[2] == A(task, "_start") for a in ants) or \
+                any(is_app(a, "<=") and len(a) == 4 and a[3] == A(task, "_start") for a in ants)
+            if ok:
+                ctx.ok("R-SCHED-GUARD", f"{where}: per-task implication guarded by start >= lower bound", nontrivial=False)
+            else:
+                ctx.violation("R-SCHED-GUARD", where, f"per-task implication without `start >= lower bound`: {show(norm(t[3]))[:60]}",
+                              f"on [{describe_config(run)[:80]}] {show(norm(t))[:260]} fires for an unscheduled optional task (parked at a "
+                              f"negative point, end <= upper bound holds): the objective's min / max then include a task that is not "
+                              f"scheduled", loc(e))
+    ctx.floor("R-SCHED-GUARD", "per-task implications of ObjectiveMinimizeFlowtimeSingleResource", n, 2)
+
+
 def r_work_amount_guard(ctx):
     """an unscheduled optional task has nothing to produce: the work-amount assertion of the solver is under the task's
     scheduled guard (the C02 rule R-WORK-AMOUNT decides the whole term, guard included)"""
@@ -536,5 +570,5 @@ def r_work_amount_guard(ctx):
     resources.r_work_amount(ctx)
 
 
-RULES = [r_sched_guard, r_opt_rules, lambda ctx: task_rules.r_task_oblig(ctx, mode="implies", rule="R-SET-ASSERTIONS", obligations=False),
+RULES = [r_sched_guard, r_flowtime_single_premise, r_opt_rules, lambda ctx: task_rules.r_task_oblig(ctx, mode="implies", rule="R-SET-ASSERTIONS", obligations=False),
          r_work_amount_guard]
